@@ -310,3 +310,39 @@ M("C20", "handled-no-reset", "driver/udp_protocol_handler.py",
 M("C20", "loop-skips-flagged-twin", "driver/udp_protocol_handler.py",
   "        \"\"\"Base class implementation for when the data has been handled\"\"\"\n        self._reset_timeout()\n        assert self._async_on_handled is None\n        if self._on_handled is not None:\n            self._on_handled(self, sender)",
   "        \"\"\"Base class implementation for when the data has been handled\"\"\"\n        self._reset_timeout()\n        assert self._async_on_handled is None\n        if self._on_handled is not None:\n            self._on_handled(self, sender)\n        _LOGGER.debug(\"handled\")", expect="silent")
+
+# --------------------------------------------------------------------------- round-5 rules
+M("C01", "datas-group-lazy", "driver/protocol/packet.py", "                    DATAS_OPEN,\n                    b\"(.*)\",", "                    DATAS_OPEN,\n                    b\"(.*?)\",", rule="R7")
+M("C02", "sync-versions-swapped", "spa.py", "                self.config_version,\n                self.log_version,\n                pos,", "                self.log_version,\n                self.config_version,\n                pos,", rule="R9")
+M("C02", "async-pos-plus-one", "async_spa.py", "                self.log_version,\n                pos,\n                length,\n                newvalue,\n                parms=self.sendparms,\n            )\n        )\n\n        if pack_command_handler",
+  "                self.log_version,\n                pos + 1,\n                length,\n                newvalue,\n                parms=self.sendparms,\n            )\n        )\n\n        if pack_command_handler", rule="R9")
+M("C02", "sync-keyword-args-twin", "spa.py", "                self.pack_type,\n                self.config_version,\n                self.log_version,\n                pos,\n                length,\n                newvalue,\n                parms=self.sendparms,\n            ),\n            self.sendparms,",
+  "                self.pack_type,\n                log_version=self.log_version,\n                config_version=self.config_version,\n                pos=pos,\n                len=length,\n                data=newvalue,\n                parms=self.sendparms,\n            ),\n            self.sendparms,", expect="silent")
+M("C03", "sync-install-per-segment", "driver/spastruct.py", "            self._status_block_segments.append(handler.data)\n", "            self._status_block_segments.append(handler.data)\n            self.replace_status_block_segment(self._status_block_offset, b\"\".join(self._status_block_segments))\n", rule="R6")
+M("C05", "async-protocol-wrap-late", "driver/async_udp_protocol.py", "            if self._sequence_counter_protocol == 191:", "            if self._sequence_counter_protocol > 191:", rule="R8")
+M("C06", "struct-get-retry-free-after-data", "driver/async_spastruct.py", "                retry_count -= 1\n            return False", "                if not segments:\n                    retry_count -= 1\n            return False", rule="R6")
+M("C08", "cancel-by-prefix", "async_tasks.py", "            if task.get_name().startswith(f\"{key_}:\"):", "            if task.get_name().startswith(key_):", rule="I10")
+M("C09", "error-closes", "driver/async_udp_protocol.py", "        # TODO: What do we want to do with this?", "        self.disconnect()", rule="R5")
+M("C09", "error-counted-twin", "driver/async_udp_protocol.py", "        # TODO: What do we want to do with this?", "        self._last_error = exc", expect="silent")
+M("C11", "get-reminder-indexes", "automation/reminders.py", "        for reminder in self.reminders:\n            if reminder.type == reminder_type:\n                return reminder\n        return None",
+  "        return [r for r in self.reminders if r.type == reminder_type][0]", rule="R6")
+M("C11", "get-reminder-next-default-twin", "automation/reminders.py", "        for reminder in self.reminders:\n            if reminder.type == reminder_type:\n                return reminder\n        return None",
+  "        return next((r for r in self.reminders if r.type == reminder_type), None)", expect="silent")
+M("C12", "async-accessors-merged", "driver/async_spastruct.py", "        self.accessors = dict(config_class.accessors, **log_class.accessors)", "        self.accessors.update(dict(config_class.accessors, **log_class.accessors))", rule="R8")
+M("C12", "sync-cfg-wins-clash", "driver/spastruct.py", "        self.accessors = dict(config_class.accessors, **log_class.accessors)", "        self.accessors = dict(log_class.accessors, **config_class.accessors)", rule="R8")
+M("C12", "accessors-two-step-twin", "driver/spastruct.py", "        self.accessors = dict(config_class.accessors, **log_class.accessors)", "        merged = dict(config_class.accessors)\n        merged.update(log_class.accessors)\n        self.accessors = merged", expect="silent")
+M("C13", "pump-skip-when-output-matches", "automation/pump.py", "            _LOGGER.debug(\"%s set mode %s\", self.name, mode)\n", "            _LOGGER.debug(\"%s set mode %s\", self.name, mode)\n            if mode == self.mode:\n                return\n", rule="R4")
+M("C14", "sensor-rounds", "automation/sensors.py", "        return self._accessor.value\n\n    @property\n    def unit_of_measurement", "        v = self._accessor.value\n        return round(v, 1) if isinstance(v, float) else v\n\n    @property\n    def unit_of_measurement", rule="R7")
+M("C15", "sync-found-by-membership", "locator.py", "            if descriptor.identifier_as_string == self._spa_to_find:\n                self._has_found_spa = True\n            if descriptor.identifier == self._spa_to_find:\n                self._has_found_spa = True",
+  "            self._has_found_spa = True", rule="R8")
+M("C15", "sync-no-initial-wait", "locator.py", "                    if self.has_had_enough_time:\n                        if len(self.spas) > 0:", "                    if True:\n                        if len(self.spas) > 0:", rule="R8")
+M("C15", "sync-found-one-test-twin", "locator.py", "            if descriptor.identifier_as_string == self._spa_to_find:\n                self._has_found_spa = True\n            if descriptor.identifier == self._spa_to_find:\n                self._has_found_spa = True",
+  "            if self._spa_to_find in (descriptor.identifier_as_string, descriptor.identifier):\n                self._has_found_spa = True", expect="silent")
+M("C17", "pump-on-whitelist", "automation/pump.py", "        return self._state_sensor.state != \"OFF\"", "        return self._state_sensor.state in (\"HIGH\", \"LOW\")", rule="R6")
+M("C17", "switch-on-only-ON", "automation/switch.py", "        return self._state_sensor.state != \"OFF\"", "        return self._state_sensor.state == \"HIGH\"", rule="R6")
+M("C19", "snapshot-name-lazy", "utils/snapshot.py", "(r\"Snapshot \\((.*)\\)\", self._re_snapshot_alt)", "(r\"Snapshot \\((.*?)\\)\", self._re_snapshot_alt)", rule="R1")
+M("C20", "cleanup-from-stale-copy", "driver/udp_socket.py",
+  "                remove_handlers = [\n                    handler\n                    for handler in self._receive_handlers\n                    if handler.should_remove_handler\n                ]\n\n            if remove_handlers:\n                _LOGGER.debug(\"Removed timedout handlers %s\", remove_handlers)\n\n            # Remove them from the collection\n            with self._lock:\n                self._receive_handlers = [\n                    handler\n                    for handler in self._receive_handlers\n",
+  "                snapshot_ = list(self._receive_handlers)\n                remove_handlers = [\n                    handler\n                    for handler in self._receive_handlers\n                    if handler.should_remove_handler\n                ]\n\n            if remove_handlers:\n                _LOGGER.debug(\"Removed timedout handlers %s\", remove_handlers)\n\n            # Remove them from the collection\n            with self._lock:\n                self._receive_handlers = [\n                    handler\n                    for handler in snapshot_\n", rule="R10")
+M("C20", "cleanup-single-region-twin", "driver/udp_socket.py", "            if remove_handlers:\n                _LOGGER.debug(\"Removed timedout handlers %s\", remove_handlers)\n\n            # Remove them from the collection\n            with self._lock:\n                self._receive_handlers = [",
+  "            with self._lock:\n                self._receive_handlers = [", expect="silent")
